@@ -301,7 +301,7 @@ func TestC11(t *testing.T) {
 	var mined []*hnet.Mined
 	var imgs []images
 	for i := 0; i < nBlocks; i++ {
-		want := -1
+		want := historyOrder(i) // natural orders with a prime-order block every eighth block (see historyOrder)
 		if i >= 24 {
 			want = 2
 		}
